@@ -28,6 +28,7 @@ package errors
 //@   requires e.file != nil && e.index < len(e.file.content)
 //@   nopanic
 //@   ensures isLineStart(e.file.content, e.nl, e.index, result)
+//@   defines result == lineStartOf(e.file.content, e.nl, e.index)
 //@   loop 0 invariant content == e.file.content && 0 <= i && i <= e.index
 //@   loop 0 invariant forall j :: i < j && j < e.index ==> content[j] != e.nl
 //@   loop 0 decreases i
@@ -38,6 +39,7 @@ package errors
 //@   nopanic
 //@   ensures exists t :: isLineStop(e.file.content, e.nl, e.index, len(e.file.content), t) && (result == t || (result == t - 1 && t >= 1 && e.file.content[t-1] != e.nl && isNewLine(e.file.content[t-1])))
 //@   ensures e.index <= result + 1 && result <= len(e.file.content)
+//@   defines result == lineEndOf(e.file.content, e.nl, e.index)
 //@   loop 0 invariant content == e.file.content && e.index <= i && i <= e.length
 //@   loop 0 invariant forall j :: e.index <= j && j < i ==> content[j] != e.nl
 //@   loop 0 decreases e.length - i
@@ -64,6 +66,14 @@ package errors
 //@   ensures preparedOK(e)
 //@   ensures len(result) <= 200
 //@   ensures (e.file == nil || len(e.file.content) == 0) ==> len(result) == 0
+// "the text of that line (left-trimmed, truncated at 200 bytes)": a line of at most 200
+// bytes is shown in full; a longer one is cut to its first 197 bytes plus "..."
+//@   ensures e.file != nil && len(e.file.content) > 0 && lineEndOf(e.file.content, e.nl, e.index) - lineStartOf(e.file.content, e.nl, e.index) <= 200
+//@           ==> len(result) <= lineEndOf(e.file.content, e.nl, e.index) - lineStartOf(e.file.content, e.nl, e.index)
+//@               && (forall j :: lineStartOf(e.file.content, e.nl, e.index) <= j && j < lineEndOf(e.file.content, e.nl, e.index) - len(result) ==> isBlank(e.file.content[j]))
+//@               && (forall j {result[j]} :: 0 <= j && j < len(result) ==> result[j] == e.file.content[lineEndOf(e.file.content, e.nl, e.index) - len(result) + j])
+//@   ensures e.file != nil && len(e.file.content) > 0 && lineEndOf(e.file.content, e.nl, e.index) - lineStartOf(e.file.content, e.nl, e.index) > 200
+//@           ==> len(result) >= 3 && result[len(result) - 1] == '.' && result[len(result) - 2] == '.' && result[len(result) - 3] == '.'
 
 //@ func (*DocumentError).pointerToTheErrorCharacter()
 //@   props C17
